@@ -215,7 +215,8 @@ func runEvolution(c *Ctx) {
 var badKindTypes = []reflect.Type{
 	reflect.TypeOf(complex64(0)), reflect.TypeOf(complex128(0)), reflect.TypeOf([2]int{}), reflect.TypeOf(make(chan int)),
 	reflect.TypeOf(func() {}), tAny, reflect.TypeOf(uintptr(0)),
-	reflect.TypeOf([]*float64{}), reflect.TypeOf([]*float32{}), reflect.TypeOf([][]string{}), reflect.TypeOf([][]Inner{}),
+	reflect.TypeOf([]*float64{}), reflect.TypeOf([]*float32{}), reflect.TypeOf([]**float64{}), reflect.TypeOf([]**float32{}),
+	reflect.TypeOf([]*MyFloat{}), reflect.TypeOf([]***float64{}), reflect.TypeOf([][]string{}), reflect.TypeOf([][]Inner{}),
 	reflect.TypeOf(map[string]map[string]int{}), reflect.TypeOf((*map[string]int)(nil)), reflect.TypeOf([]map[string]int{}),
 	reflect.TypeOf([][][]int{}), reflect.TypeOf(map[string][][]string{}), reflect.TypeOf([]any{}), reflect.TypeOf(map[string]any{}),
 }
@@ -295,6 +296,10 @@ func runBuild(c *Ctx) {
 		for _, tag := range []string{"", "flat", "intern", "proto", "zzz"} {
 			c.addBuild(newTypeCase(t, Cfg{}), tag, "build-tagged", "tagged-"+tag)
 		}
+	}
+	for _, t := range []reflect.Type{reflect.TypeOf(RecTagged{}), reflect.TypeOf(RecTaggedSlice{}), reflect.TypeOf(MutTagA{})} {
+		c.addBuild(newTypeCase(t, Cfg{}), "", "build-recursive-tagged", "recursive-tagged")
+		c.addBuild(newTypeCase(t, Cfg{ProtoArrays: true, WithNull: true}), "", "build-recursive-tagged", "recursive-tagged")
 	}
 	for _, t := range catalogueNull {
 		c.addBuild(newTypeCase(t, Cfg{}), "", "build-null-unregistered", "null-unregistered")
@@ -427,6 +432,29 @@ func runArbitrary(c *Ctx) {
 			}
 			other := valid[c.rng.Intn(len(valid))]
 			run(append(append([]byte{}, data...), other...), "spliced")
+		}
+		// lengths and counts near 2^63 and 2^64 (int conversion wraps), in known and unknown fields of every wire type
+		huge := [][]byte{
+			{0xff, 0xff, 0xff, 0xff, 0xff, 0xff, 0xff, 0xff, 0x7f},       // 2^63-1
+			{0x80, 0x80, 0x80, 0x80, 0x80, 0x80, 0x80, 0x80, 0x80, 0x01}, // 2^63
+			{0xff, 0xff, 0xff, 0xff, 0xff, 0xff, 0xff, 0xff, 0xff, 0x01}, // 2^64-1
+			{0xf6, 0xff, 0xff, 0xff, 0xff, 0xff, 0xff, 0xff, 0xff, 0x01}, // 2^64-10
+			{0xfe, 0xff, 0xff, 0xff, 0xff, 0xff, 0xff, 0xff, 0x7f},       // 2^63-2
+		}
+		var firstTags []byte
+		for _, data := range valid {
+			if len(data) > 0 {
+				firstTags = append(firstTags, data[0])
+			}
+		}
+		firstTags = append(firstTags, 0x7b, 0x7a, 0x0b, 0x0a) // unknown field 15 wt 3 / wt 2; field 1 wt 3 / wt 2
+		for _, tg := range firstTags {
+			for _, h := range huge {
+				run(append([]byte{tg}, h...), "huge-length")
+				run(append(append([]byte{tg, 0x01}, h...), 1, 2, 3), "huge-entry-length")
+				run(append(append([]byte{tg}, h...), h...), "huge-count-and-length")
+				run(append(append([]byte{tg, 0x02, 0x01, 0x05}, h...), 9), "huge-second-entry")
+			}
 		}
 		// the same fields arriving in both slice forms (counted and repeated), in either order,
 		// also into targets whose slices are full (len == cap)
